@@ -364,6 +364,11 @@ def search(ctx):
             stats["form:" + lab.split(" ")[0]] += 1
             stats["verdict:" + dw.action] += 1
             bad = None
+            dc_local = dc
+            if lab.split(" ")[0] in ("docker", "podman", "kubectl"):
+                # inside a container the inner command's *local-path* checks do not apply (property C13): the reference is
+                # the inner command judged in remote mode
+                dc = analyze(bash_join(c), cfg, Path(CWD), remote=True)
             if ftag == "nomono":
                 pass
             elif RANK[dw.action] < RANK[dc.action]:
@@ -376,6 +381,7 @@ def search(ctx):
                 allowed.append((lab, t, c, ftag))
             if len(samples) < 3 and dw.action != "allow" and dc.action != "allow":
                 samples.append({"form": lab, "command": t, "verdict": dw.action, "inner_verdict": dc.action})
+            dc = dc_local
     workers = 12
     jails = [Jail(STUBS, real=REAL) for _ in range(workers)]
     try:
